@@ -814,11 +814,17 @@ func stringReaderTable(c *core.Ctx, o *core.Ob, shortPkg string) readTable {
 	// octal: letters that reach a store of a non-constant, non-verbatim value
 	rt.Octal = envE.ReachSet(g, starts(esc.v), func(v *core.V) bool {
 		as, ok := v.AST.(*ast.AssignStmt)
-		if !ok || len(as.Rhs) != 1 {
+		if !ok {
 			return false
 		}
-		call, ok := as.Rhs[0].(*ast.CallExpr)
-		if !ok || core.CalleeKey(fn.Info(), call) != "builtin.append" || len(call.Args) != 2 {
+		// (the append may be one of several values assigned at once: res, flag, err = append(res, x), false, nil)
+		var call *ast.CallExpr
+		for _, r := range as.Rhs {
+			if cl, isCall := ast.Unparen(r).(*ast.CallExpr); isCall && core.CalleeKey(fn.Info(), cl) == "builtin.append" && len(cl.Args) == 2 {
+				call = cl
+			}
+		}
+		if call == nil {
 			return false
 		}
 		if _, isConst := core.IntConst(fn.Info(), call.Args[1]); isConst {
